@@ -48,6 +48,16 @@ Theorem C08_optional_absent : forall host raw rec lf cf c i e w d s off ipp v,
   eval (mkctx raw s off) w = Ok v -> truth v = false ->
   unpack_field host raw rec lf cf c (COpt i e w d) s off ipp = FOk (slot_set s (FN i) VNone) off [].
 Proof. intros host raw rec lf. exact (opt_absent host raw rec lf). Qed.
+(* ... in particular when the condition is another (optional) FIELD that is absent, empty or zero: chained optionals *)
+Theorem C08_optional_chained_absent : forall host raw rec lf cf c i e f d s off ipp v,
+  slot_get s f = Some v -> (v = VNone \/ v = VBytes [] \/ v = VInt 0 \/ v = VList []) ->
+  unpack_field host raw rec lf cf c (COpt i e (EField f) d) s off ipp = FOk (slot_set s (FN i) VNone) off [].
+Proof.
+  intros host raw rec lf cf c i e f d s off ipp v Hs Hv.
+  apply (opt_absent host raw rec lf cf c i e (EField f) d s off ipp v).
+  - cbn [eval mkctx e_slots]. rewrite Hs. reflexivity.
+  - destruct Hv as [-> | [-> | [-> | ->]]]; reflexivity.
+Qed.
 Theorem C08_optional_present : forall host raw rec lf cf c i e w d s off ipp v,
   eval (mkctx raw s off) w = Ok v -> truth v = true ->
   unpack_field host raw rec lf cf c (COpt i e w d) s off ipp =
@@ -72,6 +82,7 @@ Print Assumptions C08_until_final.
 Print Assumptions C08_until_stops.
 Print Assumptions C08_until_one_more.
 Print Assumptions C08_optional_absent.
+Print Assumptions C08_optional_chained_absent.
 Print Assumptions C08_optional_present.
 Print Assumptions C08_optional_packs_nothing.
 Print Assumptions C08_ref.
